@@ -620,6 +620,10 @@ func (a *analysis) checkControl(x *verifkit.Exec) {
 	if !x.StepCapHit && len(x.W.Pending()) == 0 {
 		for _, c := range x.Controls {
 			if c.Issued() && !c.ReturnedInTime() {
+				if strings.HasPrefix(c.Name, "wait#") && waitMayBlock(x.W.Events()) {
+					// a wait on a live run nobody (successfully) asked to stop legitimately blocks
+					continue
+				}
 				a.bad("C11/control-call-never-returns", "control call %s never returned although every plugin and store request was answered (wedged)", c.Name)
 			}
 		}
@@ -641,6 +645,30 @@ func (a *analysis) checkControl(x *verifkit.Exec) {
 	}
 }
 
+
+// waitMayBlock reports whether a WaitPipeline call is entitled to block at the end of the execution: a run is live (a
+// source was opened and not torn down since) and no stop request returned nil since that run's connectors were opened.
+func waitMayBlock(evs []verifkit.Event) bool {
+	live, stopped := false, false
+	isSrc := func(c string) bool { return len(c) == 2 && c[0] == 's' && c[1] >= '0' && c[1] <= '9' }
+	for _, e := range evs {
+		if e.Comp == "end" {
+			break // wind-down of the harness follows
+		}
+		switch {
+		case isSrc(e.Comp) && e.Kind == "open":
+			live, stopped = true, false
+		case isSrc(e.Comp) && e.Kind == "teardown":
+			live = false
+		case e.Comp == "ctl" && strings.HasPrefix(e.Kind, "hist.") && strings.HasPrefix(e.Arg, "nil|"):
+			switch strings.TrimSuffix(strings.TrimPrefix(e.Kind, "hist."), ".ret") {
+			case "stop", "force", "stopwait", "stopall":
+				stopped = true
+			}
+		}
+	}
+	return live && !stopped
+}
 
 // checkReconf is the C13 oracle: a live processor reconfiguration takes effect at a record boundary.
 func (a *analysis) checkReconf(x *verifkit.Exec) {
